@@ -31,6 +31,12 @@ pub struct Case {
     /// stored bytes after k read operations
     pub apply_after: Option<usize>,
     pub rchunk: Chunk,
+    /// Some((slice, of, values)): instead of `plan`, enumerate tree-level XML mutations of the
+    /// source file exhaustively - every element dropped, every numeric leaf / attribute set to each
+    /// of the first `values` extreme texts, and every pair (element dropped, numeric sibling of the
+    /// same parent set to an extreme) - restricted to the combinations with number % of == slice
+    #[serde(default)]
+    pub xml_pairs: Option<(u64, u64, usize)>,
 }
 
 pub struct Untrusted {
@@ -95,8 +101,238 @@ impl<'a> Meter<'a> {
     }
 }
 
+/// Extreme texts for numeric content, most productive first.
+const EXTREMES: [&str; 16] = ["4294967295", "2147483648", "NaN", "-1", "1e999", "", "18446744073709551615", "9223372036854775807", "-9223372036854775808", "inf", "-inf", "0", "4294967296", "abc", "1e-400", "-0"];
+
+fn is_numeric_leaf(e: &crate::refcodec::xml::Elem) -> bool {
+    e.elems().next().is_none() && matches!(e.attr("type"), Some("Integer") | Some("Float") | Some("ScaledInteger"))
+}
+
+/// All tree-level mutations of a document, as closures over a clone of the tree: returns the
+/// number of combinations; `f` is called with (number, description, mutated XML).
+fn enumerate_xml_mutations(root: &crate::refcodec::xml::Elem, values: usize, slice: u64, of: u64, f: &mut dyn FnMut(u64, String, String) -> bool) -> u64 {
+    use crate::refcodec::xml::{serialize, Elem, Node};
+    // paths of all elements (as child-index lists)
+    fn paths(e: &Elem, cur: &mut Vec<usize>, out: &mut Vec<Vec<usize>>) {
+        for (i, c) in e.children.iter().enumerate() {
+            if let Node::Elem(x) = c {
+                cur.push(i);
+                out.push(cur.clone());
+                paths(x, cur, out);
+                cur.pop();
+            }
+        }
+    }
+    fn at<'a>(root: &'a mut Elem, path: &[usize]) -> &'a mut Elem {
+        let mut e = root;
+        for i in path {
+            e = match &mut e.children[*i] {
+                Node::Elem(x) => x,
+                _ => unreachable!(),
+            };
+        }
+        e
+    }
+    let mut all = Vec::new();
+    paths(root, &mut Vec::new(), &mut all);
+    let vals = &EXTREMES[..values.min(EXTREMES.len())];
+    let mut n = 0u64;
+    let mut emit = |desc: String, tree: &Elem, f: &mut dyn FnMut(u64, String, String) -> bool| -> bool {
+        let k = n;
+        n += 1;
+        if k % of != slice {
+            return true;
+        }
+        f(k, desc, serialize(tree))
+    };
+    for path in &all {
+        let (parent_path, idx) = path.split_at(path.len() - 1);
+        let idx = idx[0];
+        let mut probe = root.clone();
+        let el = at(&mut probe, path).clone();
+        let name = el.qname();
+        // 1. element dropped
+        {
+            let mut t = root.clone();
+            at(&mut t, parent_path).children.remove(idx);
+            if !emit(format!("drop <{name}>"), &t, f) {
+                return n;
+            }
+        }
+        // 2. numeric leaf set to each extreme
+        if is_numeric_leaf(&el) {
+            for v in vals {
+                let mut t = root.clone();
+                at(&mut t, path).children = if v.is_empty() { vec![] } else { vec![Node::Text(v.to_string())] };
+                if !emit(format!("<{name}> = '{v}'"), &t, f) {
+                    return n;
+                }
+            }
+        }
+        // 3. every attribute dropped / set to each extreme
+        for (ai, a) in el.attrs.iter().enumerate() {
+            {
+                let mut t = root.clone();
+                at(&mut t, path).attrs.remove(ai);
+                if !emit(format!("drop attribute {} of <{name}>", a.local), &t, f) {
+                    return n;
+                }
+            }
+            if a.local != "type" {
+                for v in vals {
+                    let mut t = root.clone();
+                    at(&mut t, path).attrs[ai].value = v.to_string();
+                    if !emit(format!("attribute {} of <{name}> = '{v}'", a.local), &t, f) {
+                        return n;
+                    }
+                }
+            }
+        }
+        // 4. element dropped and a numeric sibling set to an extreme
+        let parent = at(&mut probe, parent_path).clone();
+        for (si, sib) in parent.children.iter().enumerate() {
+            if si == idx {
+                continue;
+            }
+            if let Node::Elem(se) = sib {
+                if is_numeric_leaf(se) {
+                    for v in vals {
+                        let mut t = root.clone();
+                        {
+                            let p = at(&mut t, parent_path);
+                            if let Node::Elem(x) = &mut p.children[si] {
+                                x.children = if v.is_empty() { vec![] } else { vec![Node::Text(v.to_string())] };
+                            }
+                            p.children.remove(idx);
+                        }
+                        if !emit(format!("drop <{name}> and <{}> = '{v}'", se.qname()), &t, f) {
+                            return n;
+                        }
+                    }
+                }
+            }
+        }
+    }
+    n
+}
+
+/// A file that carries every kind of metadata the reader parses.
+fn rich_program() -> Program {
+    use crate::model::*;
+    let mut r = Rng::new(0xE57);
+    let ch = &mut Rng::new(7);
+    let std = |i: u8, dt: DType| Rec { name: Name::Std(i), dt };
+    let f64t = DType::Double { min: Some(B64::of(-10.0)), max: Some(B64::of(10.0)) };
+    let proto = vec![
+        std(0, f64t.clone()),
+        std(1, f64t.clone()),
+        std(2, f64t.clone()),
+        std(3, DType::Int { min: 0, max: 2 }),
+        std(4, DType::Scaled { min: 0, max: 100000, scale: B64::of(0.001), offset: B64::of(0.0) }),
+        std(5, DType::Single { min: None, max: None }),
+        std(6, DType::Single { min: None, max: None }),
+        std(7, DType::Int { min: 0, max: 2 }),
+        std(8, DType::Int { min: 0, max: 4095 }),
+        std(9, DType::Int { min: 0, max: 1 }),
+        std(10, DType::Int { min: 0, max: 255 }),
+        std(11, DType::Int { min: 0, max: 255 }),
+        std(12, DType::Int { min: 0, max: 255 }),
+        std(13, DType::Int { min: 0, max: 1 }),
+        std(14, DType::Int { min: 0, max: 1000 }),
+        std(15, DType::Int { min: 0, max: 1000 }),
+        std(16, DType::Int { min: 0, max: 7 }),
+        std(17, DType::Int { min: 0, max: 7 }),
+        std(18, DType::Double { min: None, max: None }),
+        std(19, DType::Int { min: 0, max: 1 }),
+        Rec { name: Name::Ext { ns: "ext".into(), name: "normalX".into() }, dt: DType::Single { min: None, max: None } },
+    ];
+    let meta = MetaCfg { density: 1000, nasty_strings: false };
+    let mut steps: Vec<PcStep> = gen_pc_fields(&mut r, &proto, &meta).into_iter().map(PcStep::Set).collect();
+    steps.push(PcStep::Points { n: 12, seed: 5 });
+    let mut calls = vec![
+        Call::RegisterExt { ns: "ext".into(), url: "http://example.org/e57/ext".into() },
+        Call::CoordMeta(Some("WKT".into())),
+        Call::Creation(Some(DT { gps: B64::of(1234.5), atomic: true })),
+        Call::Pc { guid: "pc-guid".into(), proto, steps, end: SubEnd::Finalize },
+    ];
+    for (k, kind) in [RepKind::Pinhole, RepKind::Spherical, RepKind::Cylindrical].iter().enumerate() {
+        let mut isteps: Vec<ImgStep> = gen_img_fields(&mut r, &meta).into_iter().map(ImgStep::Set).collect();
+        let mut rep = gen_rep(&mut r, *kind, ch);
+        rep.data.len = 40 + k;
+        rep.mask = Some(Bytes { len: 20 + k, seed: 3, pat: 0 });
+        rep.props.width = 640;
+        rep.props.height = 480;
+        isteps.push(ImgStep::Rep(rep));
+        let mut vis = gen_rep(&mut r, RepKind::Visual, ch);
+        vis.data.len = 30;
+        vis.mask = if k == 0 { Some(Bytes { len: 10, seed: 4, pat: 0 }) } else { None };
+        isteps.push(ImgStep::Rep(vis));
+        calls.push(Call::Img { guid: format!("img-{k}"), steps: isteps, end: SubEnd::Finalize });
+    }
+    Program { guid: "file-guid".into(), calls, end: End::Finalize, knob: None }
+}
+
 impl Untrusted {
+    fn run_xml_pairs(&self, case: &Case, slice: u64, of: u64, values: usize, st: &mut RunStats) -> Outcome<Case> {
+        let (pristine, standalone) = match build_image(&case.prog, &case.source, None) {
+            Ok(x) => x,
+            Err((c, d)) => return Outcome::fail(c, d),
+        };
+        let map = corrupt::map_of(&pristine).expect("refcodec cannot map the pristine file");
+        let root = crate::refcodec::xml::parse(&map.xml).expect("pristine XML parses");
+        let mut first: Option<(String, String, Case)> = None;
+        let mut done = 0u64;
+        let total = enumerate_xml_mutations(&root, values, slice, of, &mut |k, desc, xml| {
+            done += 1;
+            let plan = Plan { muts: vec![Mut::XmlWhole { xml }], sealed: true, media: vec![] };
+            let corrupted = corrupt::apply(&pristine, &map, &plan);
+            let budget = Budget { len: corrupted.len() as u64, pages: (corrupted.len() as u64).div_ceil(1024), full_transfers: case.rchunk == Chunk::Full };
+            let narrowed = Case { plan: plan.clone(), xml_pairs: None, ..case.clone() };
+            let mut local = RunStats::default();
+            alloc::set_ceiling(Some(CEILING));
+            let res = guard(|| self.drive(&narrowed, &pristine, &corrupted, &standalone, &budget, &mut local));
+            alloc::set_ceiling(None);
+            for (key, v) in local.maxima {
+                st.max(&key, v);
+            }
+            st.sim_ops += local.sim_ops;
+            st.sim_bytes += local.sim_bytes;
+            let mut fp = Digest::new();
+            fp.u64(4242).u64(k);
+            st.fingerprint(fp.finish());
+            match res {
+                Err((loc, msg)) => {
+                    if loc.contains("verif/sim/") {
+                        panic!("harness panic at {loc}: {msg}");
+                    }
+                    let short = loc.rsplit("/repo/").next().unwrap_or(&loc).to_string();
+                    first = Some((format!("panic@{short}"), format!("XML mutation #{k} ({desc}): library panicked at {loc}: {msg}"), narrowed));
+                    false
+                }
+                Ok(Some((class, detail))) if self.budgets || class.starts_with("yield") => {
+                    first = Some((class, format!("XML mutation #{k} ({desc}): {detail}"), narrowed));
+                    false
+                }
+                Ok(_) => true,
+            }
+        });
+        st.evaluations = done.max(1);
+        st.count("xml_tree_mutations_enumerated", done);
+        st.count("xml_tree_mutations_in_space", if first.is_none() { total } else { 0 });
+        st.probe("xml_pair_enumeration", true);
+        if let Some((class, detail, narrowed)) = first {
+            return Outcome::fail_narrowed(class, detail, narrowed);
+        }
+        if st.sample.is_none() {
+            st.sample = Some(json!({"mode": "exhaustive tree-level XML mutations of one rich file", "slice": slice, "of": of, "values": &EXTREMES[..values.min(EXTREMES.len())], "combinations_in_slice": done}));
+        }
+        Outcome::Held
+    }
+
     fn run_case(&self, case: &Case, st: &mut RunStats) -> Outcome<Case> {
+        if let Some((slice, of, values)) = case.xml_pairs {
+            return self.run_xml_pairs(case, slice, of, values, st);
+        }
         st.evaluations = 1;
         let (pristine, standalone) = match build_image(&case.prog, &case.source, None) {
             Ok(x) => x,
@@ -216,6 +452,9 @@ impl Untrusted {
         swap(&disk, &mut op_no);
         for (k, pc) in pcs.iter().enumerate().take(8) {
             // raw iterator, step by step
+            // every iterator lives in its own block: the harness must keep compiling if the
+            // library's iterator types gain a Drop implementation
+            {
             let m = Meter::start(&ctx);
             let it = r.pointcloud_raw(pc);
             note(m.stop("pointcloud_raw", b, st));
@@ -251,7 +490,9 @@ impl Untrusted {
                 }
                 st.count("points.raw", n);
             }
+            }
             swap(&disk, &mut op_no);
+            {
             let m = Meter::start(&ctx);
             let it = r.pointcloud_simple(pc);
             note(m.stop("pointcloud_simple", b, st));
@@ -294,6 +535,7 @@ impl Untrusted {
                 }
                 st.count("points.simple", n);
             }
+            }
             swap(&disk, &mut op_no);
         }
         for (i, bl) in blobs.iter().enumerate().take(24) {
@@ -318,11 +560,33 @@ impl Untrusted {
 }
 
 pub fn gen_untrusted(rc: &RunCtx) -> Case {
+    let slices: u64 = if rc.tier == Tier::Thorough { 64 } else { 16 };
+    // one slice per child-process shard (250 run indices), so that the slices run in parallel
+    if rc.index % 250 == 0 && rc.index / 250 < slices {
+        let values = if rc.tier == Tier::Thorough { 16 } else { 6 };
+        return Case {
+            prog: rich_program(),
+            source: Source::Writer,
+            plan: Plan { muts: vec![], sealed: true, media: vec![] },
+            opts: DEFAULT_OPTS,
+            blob_probes: vec![],
+            apply_after: None,
+            rchunk: Chunk::Full,
+            xml_pairs: Some((rc.index / 250, slices, values)),
+        };
+    }
     let mut g = Rng::stream(rc.run_seed, "cfg");
     let mut cfg = producer_cfg(&mut g);
     cfg.nasty_strings = g.chance(1, 4);
     cfg.knob = Some(*g.pick(&KNOBS));
     cfg.max_items = 4;
+    let size_targeted = rc.index % 5 == 4;
+    if size_targeted {
+        // size-targeted plans often need a source beyond small-test scale (a section of several
+        // hundred KiB behind a hostile packet)
+        cfg.small = false;
+        cfg.big_permille = 150;
+    }
     let mut prog = gen_program(rc.run_seed, &cfg);
     // always at least one point cloud: most entry points need one
     let mut k = 0u64;
@@ -337,7 +601,6 @@ pub fn gen_untrusted(rc: &RunCtx) -> Case {
         Source::Producer { layout: Layout::draw(&mut l), foreign: g.below(32) as u8 }
     };
     let mut f = Rng::stream(rc.run_seed, "fault");
-    let size_targeted = rc.index % 5 == 4;
     let plan = match build_image(&prog, &source, None).ok().and_then(|(img, _)| corrupt::map_of(&img).map(|m| (img, m))) {
         Some((img, map)) => corrupt::draw_plan(&mut f, &img, &map, size_targeted),
         None => Plan { muts: vec![Mut::AnyBits { seed: 1, n: 1 }], sealed: true, media: vec![] },
@@ -352,7 +615,7 @@ pub fn gen_untrusted(rc: &RunCtx) -> Case {
     }
     let apply_after = if f.chance(1, 5) { Some(f.usize_below(6)) } else { None };
     let mut c = Rng::stream(rc.run_seed, "chunk-dev");
-    Case { prog, source, plan, opts: g.below(64) as u8, blob_probes, apply_after, rchunk: Chunk::draw(&mut c) }
+    Case { prog, source, plan, opts: g.below(64) as u8, blob_probes, apply_after, rchunk: Chunk::draw(&mut c), xml_pairs: None }
 }
 
 pub fn shrink_untrusted(case: &Case) -> Vec<Case> {
@@ -408,7 +671,7 @@ fn regression_cases() -> Vec<(String, Case)> {
         end: End::Finalize,
         knob: None,
     };
-    let base = Case { prog, source: Source::Writer, plan: Plan { muts: vec![], sealed: true, media: vec![] }, opts: DEFAULT_OPTS, blob_probes: vec![], apply_after: None, rchunk: Chunk::Full };
+    let base = Case { prog, source: Source::Writer, plan: Plan { muts: vec![], sealed: true, media: vec![] }, opts: DEFAULT_OPTS, blob_probes: vec![], apply_after: None, rchunk: Chunk::Full, xml_pairs: None };
     vec![
         (
             "F13 every record zero-width".into(),
@@ -439,7 +702,7 @@ impl Prop for Untrusted {
         }
     }
     fn meta(&self) -> Meta {
-        let common = "valid file (crate writer or refcodec producer, at least one point cloud) -> corruption plan located with refcodec's map of the file: 1-3 mutations of header fields, XML numbers (NaN, inf, 1e999, -0, i64/u64 extremes, empty, garbage), XML attributes (fileOffset/recordCount/length -> 0, huge, unaligned, inside a checksum, another section; minimum/maximum/scale/offset/precision/type), dropped / duplicated / moved / emptied elements, DTD and entity templates, ill-formed fragments, compressed-vector and blob section header fields, packet header fields and stream lengths, payload bits; then all page checksums recomputed (3 of 4 plans: the mutation reaches the parsers) or left as they are; plus stale / misdirected pages, truncation and extension by pages or odd byte counts (1 of 5 plans); every fifth plan is size-targeted (huge recordCount, every record zero-width, maximal stream lengths, XML length at the 10 MiB cap, page size near 1 MiB, huge blob lengths). Applied before open, or to the stored bytes between two operations of an open reader. Every entry point is driven: validate_crc, raw_xml, E57Reader::new, listings and descriptor helpers, raw and simple iteration (drawn option vector) step by step to the first Err/None, every listed blob plus Blob::new probes with hostile offsets/lengths. Runs execute in child processes (abort, hang > 20 s and allocations beyond a 1 GiB ceiling are attributed to the run in flight).";
+        let common = "16 run indices (64 in thorough) enumerate EXHAUSTIVELY the tree-level XML mutations of one rich file (point cloud with every attribute group, all metadata, three images with all representation kinds and masks): every element dropped; every numeric leaf and every attribute set to each of 6 (16) extreme texts; every pair (element dropped, numeric sibling of the same parent set to an extreme) - sealed, all entry points driven. Other indices: valid file (crate writer or refcodec producer, at least one point cloud) -> corruption plan located with refcodec's map of the file: 1-3 mutations of header fields, XML numbers (NaN, inf, 1e999, -0, i64/u64 extremes, empty, garbage), XML attributes (fileOffset/recordCount/length -> 0, huge, unaligned, inside a checksum, another section; minimum/maximum/scale/offset/precision/type), dropped / duplicated / moved / emptied elements, DTD and entity templates, ill-formed fragments, compressed-vector and blob section header fields, packet header fields and stream lengths, payload bits; then all page checksums recomputed (3 of 4 plans: the mutation reaches the parsers) or left as they are; plus stale / misdirected pages, truncation and extension by pages or odd byte counts (1 of 5 plans); every fifth plan is size-targeted (huge recordCount, every record zero-width, maximal stream lengths, XML length at the 10 MiB cap, page size near 1 MiB, huge blob lengths). Applied before open, or to the stored bytes between two operations of an open reader. Every entry point is driven: validate_crc, raw_xml, E57Reader::new, listings and descriptor helpers, raw and simple iteration (drawn option vector) step by step to the first Err/None, every listed blob plus Blob::new probes with hostile offsets/lengths. Runs execute in child processes (abort, hang > 20 s and allocations beyond a 1 GiB ceiling are attributed to the run in flight).";
         if self.budgets {
             Meta {
                 level: "exploration",
@@ -447,7 +710,7 @@ impl Prop for Untrusted {
                 assumptions: vec!["budget constants separate 'linear in the input' from 'unbounded'; they are not performance bounds".into(), "non-termination that touches neither device nor allocator is caught only by the 20 s watchdog".into()],
                 real: vec!["e57 crate reader paths".into(), "roxmltree".into()],
                 stub: vec!["SimDisk (counts operations and bytes)".into(), "counting allocator with ceiling".into(), "refcodec as field locator".into(), "child-process watchdog".into()],
-                required_probes: vec!["sealed_corruption".into(), "unsealed_corruption".into(), "corruption_between_operations".into(), "media_fault".into(), "corrupted_file_opens".into()],
+                required_probes: vec!["xml_pair_enumeration".into(), "sealed_corruption".into(), "unsealed_corruption".into(), "corruption_between_operations".into(), "media_fault".into(), "corrupted_file_opens".into()],
             }
         } else {
             Meta {
@@ -456,7 +719,7 @@ impl Prop for Untrusted {
                 assumptions: vec!["'all byte strings' is explored by structure-aware mutation of valid files, not uniformly".into()],
                 real: vec!["e57 crate reader paths (overflow-checks = on, debug-assertions = on)".into(), "roxmltree".into()],
                 stub: vec!["SimDisk".into(), "refcodec as field locator".into(), "child-process watchdog".into()],
-                required_probes: vec!["sealed_corruption".into(), "unsealed_corruption".into(), "corruption_between_operations".into(), "media_fault".into(), "corrupted_file_opens".into()],
+                required_probes: vec!["xml_pair_enumeration".into(), "sealed_corruption".into(), "unsealed_corruption".into(), "corruption_between_operations".into(), "media_fault".into(), "corrupted_file_opens".into()],
             }
         }
     }
